@@ -3,6 +3,7 @@ package main
 
 import (
 	"fmt"
+	"math"
 	"math/big"
 	"math/rand"
 	"regexp"
@@ -26,7 +27,7 @@ type c05in struct {
 	// WindowOnly: the two MPDs differ only at the old end of the timeline (a segment left the
 	// time-shift window) and have the same live edge
 	WindowOnly bool `json:"window_only,omitempty"`
-	OffGrid    bool `json:"off_grid,omitempty"` // the asset's segment ends are not whole milliseconds
+	OffGrid    bool `json:"off_grid,omitempty"`    // the asset's segment ends are not whole milliseconds
 	AcrossStop bool `json:"across_stop,omitempty"` // one instant before, the other after the stop time
 	// AtoPeriodGap: multi-period MPD with availabilityTimeOffset > 0 and an instant in [B-ato, B] for
 	// a period boundary B: the segments of the next Period that are already available are listed
@@ -151,7 +152,7 @@ func run(c *lib.Ctx) error {
 	modes := []string{"tlt", "tlnr", "number", "tlt"}
 	starts := []int64{0, 0, 30, 1600000000}
 	tsbds := []int64{-1, -1, 0, 1, 10, 60, 61}
-	nCfg, span := 6, int64(3)
+	nCfg, span := 8, int64(3)
 	if c.Thorough() {
 		nCfg, span = 30, 8
 	}
@@ -191,18 +192,27 @@ func run(c *lib.Ctx) error {
 				// an offset that reaches more than a whole loop ahead
 				cfg = lib.TLCfg{Snr: -1, Tsbd: -1, Mode: modes[rng.Intn(2)], AtoMS: a.LoopMS*(1+rng.Int63n(2)) + segMS + segMS/2}
 			}
+			if k == 6 {
+				// UTCTiming variants: nothing in the MPD may follow the request instant except through publishTime
+				cfg = lib.TLCfg{StartS: []int64{0, 30}[rng.Intn(2)], Snr: -1, Tsbd: -1, Mode: modes[rng.Intn(3)], Extra: []string{"utc_direct/", "utc_direct-head/", "utc_httpiso-direct/"}[rng.Intn(3)]}
+			}
+			if k == 7 {
+				// a shifted clock (timeoffset_) with a start time: the instants around the stream start are reached
+				// on the shifted clock
+				cfg = lib.TLCfg{StartS: []int64{30, 1600000000}[rng.Intn(2)], Snr: -1, Tsbd: []int64{-1, 10}[rng.Intn(2)], Mode: modes[rng.Intn(3)], Extra: []string{"timeoffset_-3/", "timeoffset_-45/", "timeoffset_7.5/"}[rng.Intn(3)]}
+			}
 			if k == 5 && 120000%segMS == 0 && a.LoopMS%N == 0 {
 				// periods with an offset below a segment: a new, still empty Period appears at its start while
 				// the newest segment became available a little earlier
 				cfg = lib.TLCfg{StartS: []int64{0, 30}[rng.Intn(2)], Snr: -1, Tsbd: []int64{-1, 10}[rng.Intn(2)], Mode: modes[rng.Intn(2)], AtoMS: segMS / 4, Extra: "periods_30/"}
 			}
 			s := &sweep{ls: lsOf[a], a: a, cfg: cfg, avail: map[int64]int64{}}
-			if k > 3 && k != 5 && rng.Intn(4) == 0 {
+			if k > 3 && k < 5 && rng.Intn(4) == 0 {
 				// a stop time a few segments after the swept range begins
 				s.stopS = cfg.StartS + 3*a.LoopMS/1000 + rng.Int63n(20)
 				s.cfg.Extra = fmt.Sprintf("stop_%d/", s.stopS)
 			}
-			if k > 3 && k != 5 && s.stopS == 0 && rng.Intn(3) == 0 && 120000%segMS == 0 && a.LoopMS%N == 0 {
+			if k > 3 && k < 5 && s.stopS == 0 && rng.Intn(3) == 0 && 120000%segMS == 0 && a.LoopMS%N == 0 {
 				s.cfg.Extra = "periods_30/" // 120 s periods: a multiple of the segment duration
 			}
 			// stream start, around the first wraps, weeks in, and the years 2030 / 2040 (64-bit products)
@@ -324,7 +334,8 @@ func max64(a, b int64) int64 {
 
 func fetchSweep(ls *lib.Livesim, s *sweep) {
 	for _, now := range s.nows {
-		url := lib.MPDURL(s.a, s.cfg, now)
+		// with timeoffset_X the server's clock is the request instant plus X: the planned instant is the shifted one
+		url := lib.MPDURL(s.a, s.cfg, now-timeOffsetMS(s.cfg.Extra))
 		mo := lib.FetchMPD(ls, url)
 		o := &obs{now: now, url: url, mo: mo, firstT: -1, lastT: -1}
 		if mo.Status == 200 {
@@ -597,4 +608,17 @@ func sameGrid(a *lib.TLAsset) bool {
 		}
 	}
 	return true
+}
+
+// timeOffsetMS: the value of a timeoffset_<seconds> configuration element in ms, 0 if none.
+func timeOffsetMS(extra string) int64 {
+	for _, e := range strings.Split(extra, "/") {
+		if strings.HasPrefix(e, "timeoffset_") {
+			var f float64
+			if _, err := fmt.Sscanf(e, "timeoffset_%g", &f); err == nil {
+				return int64(math.Round(f * 1000))
+			}
+		}
+	}
+	return 0
 }
